@@ -15,7 +15,7 @@ from .. import oracles as O
 PROPERTY = "C11"
 LEVEL = "fault_enumeration"
 RULE = ("writer subprocess (harness problem + SqliteDataStore in default thread-safe mode; scenarios: serial batch, "
-        "3-worker batch, NSGA-II N=4 G=3; small and 8 KB payloads) killed without clean-up at a crash point counted from "
+        "3-worker batch, NSGA-II N=4 G=3, EpsMOEA and OMOPSO N=4 G=2; small and 8 KB payloads) killed without clean-up at a crash point counted from "
         "the moment the store constructor returned: (A) os._exit inside the k-th objective call, (B) os._exit "
         "before/after the j-th SQL statement or commit (sqlite3.connect factory installed in the writer), (C) SIGKILL "
         "at the N-th pwrite64 on the database/journal via strace fault injection, (D) SIGKILL after a drawn delay; a "
@@ -32,7 +32,7 @@ HERE = os.path.dirname(os.path.dirname(os.path.abspath(__file__)))
 WRITER = os.path.join(HERE, "crash", "writer.py")
 READER = os.path.join(HERE, "crash", "reader.py")
 PY = sys.executable
-SCENARIOS = ["serial", "parallel", "nsga2"]
+SCENARIOS = ["serial", "parallel", "nsga2", "epsmoea", "omopso"]
 
 
 def _root():
@@ -344,6 +344,6 @@ CLAUSES = [
 ENUMS = [
     Enum("all-crash-points", all_points, check_point, tiers=("thorough",), chunk=12,
          exhaustive_note="every objective call (A), every SQL statement/commit before and after (B) and every pwrite64 on "
-                         "the database/journal after the store was created (C) for the serial, 3-worker and NSGA-II "
-                         "scenarios (big payload: serial only)"),
+                         "the database/journal after the store was created (C) for the serial, 3-worker, NSGA-II, "
+                         "EpsMOEA and OMOPSO scenarios (big payload: serial only)"),
 ]
